@@ -1,5 +1,6 @@
-(** C14 — [i as f64] (round53) is monotone and exact below 2^53; the comparison [cmp_zone] of
-    property.rs / zone_map.rs restricted to "less than" is a strict partial order (transitive,
+(** C14 — about the comparison BEFORE fix c5e300e (kept for the record; the current comparison is
+    exact, see ProofsCmp.v): [i as f64] (round53) is monotone and exact below 2^53; the comparison
+    [cmp_zone_pre] of property.rs / zone_map.rs restricted to "less than" is a strict partial order (transitive,
     irreflexive) although its Int/Float cases go through the rounding conversion. *)
 From Coq Require Import ZArith Lia List Bool.
 Import ListNotations.
@@ -109,7 +110,7 @@ Qed.
 Lemma round53_lt_inv a b : round53 a < round53 b -> a < b.
 Proof. intros H. destruct (Z.lt_ge_cases a b) as [L|G]; [exact L|]. pose proof (round53_mono b a G). lia. Qed.
 
-(** * [cmp_zone]: opposite, irreflexivity, transitivity of Lt / Gt *)
+(** * [cmp_zone_pre]: opposite, irreflexivity, transitivity of Lt / Gt *)
 
 Lemma lex_cmp_opp a b : lex_cmp b a = CompOpp (lex_cmp a b).
 Proof.
@@ -140,25 +141,25 @@ Qed.
 Lemma scale_pos : 0 < scale1075.
 Proof. unfold scale1075. apply Z.pow_pos_nonneg; lia. Qed.
 
-Lemma cmp_zone_opp a b : cmp_zone b a = option_map CompOpp (cmp_zone a b).
+Lemma cmp_zone_pre_opp a b : cmp_zone_pre b a = option_map CompOpp (cmp_zone_pre a b).
 Proof.
-  destruct a, b; cbn [cmp_zone option_map]; try reflexivity.
+  destruct a, b; cbn [cmp_zone_pre option_map]; try reflexivity.
   - destruct b, b0; reflexivity.
   - rewrite (Z.compare_antisym i i0). reflexivity.
-  - unfold cmp_f64_int, cmp_int_f64. destruct (f64_num bits); cbn [option_map]; [|reflexivity]. rewrite Z.compare_antisym. reflexivity.
-  - unfold cmp_f64_int, cmp_int_f64. destruct (f64_num bits); cbn [option_map]; [|reflexivity]. rewrite Z.compare_antisym. reflexivity.
+  - unfold cmp_f64_int_pre, cmp_int_f64_pre. destruct (f64_num bits); cbn [option_map]; [|reflexivity]. rewrite Z.compare_antisym. reflexivity.
+  - unfold cmp_f64_int_pre, cmp_int_f64_pre. destruct (f64_num bits); cbn [option_map]; [|reflexivity]. rewrite Z.compare_antisym. reflexivity.
   - unfold f64_cmp. destruct (f64_num bits), (f64_num bits0); cbn [option_map]; try reflexivity. rewrite Z.compare_antisym. reflexivity.
   - rewrite lex_cmp_opp. reflexivity.
 Qed.
 
-Lemma cmp_zone_gt_lt a b : cmp_zone a b = Some Gt <-> cmp_zone b a = Some Lt.
+Lemma cmp_zone_pre_gt_lt a b : cmp_zone_pre a b = Some Gt <-> cmp_zone_pre b a = Some Lt.
 Proof.
-  rewrite (cmp_zone_opp a b). destruct (cmp_zone a b) as [[]|]; cbn [option_map CompOpp]; split; intros H; congruence.
+  rewrite (cmp_zone_pre_opp a b). destruct (cmp_zone_pre a b) as [[]|]; cbn [option_map CompOpp]; split; intros H; congruence.
 Qed.
 
-Lemma cmp_zone_irrefl a : cmp_zone a a <> Some Lt /\ cmp_zone a a <> Some Gt.
+Lemma cmp_zone_pre_irrefl a : cmp_zone_pre a a <> Some Lt /\ cmp_zone_pre a a <> Some Gt.
 Proof.
-  destruct a; cbn [cmp_zone]; try (split; discriminate).
+  destruct a; cbn [cmp_zone_pre]; try (split; discriminate).
   - destruct b; split; discriminate.
   - rewrite Z.compare_refl. split; discriminate.
   - unfold f64_cmp. destruct (f64_num bits); [rewrite Z.compare_refl|]; split; discriminate.
@@ -177,11 +178,11 @@ Ltac zcmp :=
          | |- (_ ?= _) = Eq => apply Z.compare_eq_iff
          end.
 
-Lemma cmp_zone_lt_trans a b c : cmp_zone a b = Some Lt -> cmp_zone b c = Some Lt -> cmp_zone a c = Some Lt.
+Lemma cmp_zone_pre_lt_trans a b c : cmp_zone_pre a b = Some Lt -> cmp_zone_pre b c = Some Lt -> cmp_zone_pre a c = Some Lt.
 Proof.
   pose proof scale_pos as SP.
-  destruct a, b; cbn [cmp_zone]; try discriminate; destruct c; cbn [cmp_zone]; try discriminate;
-    unfold cmp_int_f64, cmp_f64_int, f64_cmp;
+  destruct a, b; cbn [cmp_zone_pre]; try discriminate; destruct c; cbn [cmp_zone_pre]; try discriminate;
+    unfold cmp_int_f64_pre, cmp_f64_int_pre, f64_cmp;
     repeat match goal with |- context [f64_num ?x] => destruct (f64_num x) eqn:? end; try discriminate; intros H1 H2.
   - destruct b, b0, b1; cbn in *; congruence.
   - zcmp. lia.
@@ -195,22 +196,22 @@ Proof.
   - f_equal. injection H1 as H1. injection H2 as H2. eapply lex_cmp_lt_trans; eassumption.
 Qed.
 
-Lemma cmp_zone_gt_trans a b c : cmp_zone a b = Some Gt -> cmp_zone b c = Some Gt -> cmp_zone a c = Some Gt.
+Lemma cmp_zone_pre_gt_trans a b c : cmp_zone_pre a b = Some Gt -> cmp_zone_pre b c = Some Gt -> cmp_zone_pre a c = Some Gt.
 Proof.
-  intros H1 H2. apply cmp_zone_gt_lt in H1, H2. apply cmp_zone_gt_lt. eapply cmp_zone_lt_trans; eassumption.
+  intros H1 H2. apply cmp_zone_pre_gt_lt in H1, H2. apply cmp_zone_pre_gt_lt. eapply cmp_zone_pre_lt_trans; eassumption.
 Qed.
 
-(** [cmp_range] (same type only) is the restriction of [cmp_zone] *)
-Lemma cmp_range_zone a b c : cmp_range a b = Some c -> cmp_zone a b = Some c.
-Proof. destruct a, b; cbn [cmp_range cmp_zone]; try discriminate; exact (fun H => H). Qed.
+(** [cmp_range] (same type only) is the restriction of [cmp_zone_pre] *)
+Lemma cmp_range_zone_pre a b c : cmp_range a b = Some c -> cmp_zone_pre a b = Some c.
+Proof. destruct a, b; cbn [cmp_range cmp_zone_pre]; try discriminate; exact (fun H => H). Qed.
 
 (** values that compare Equal in the same type behave alike against a third value *)
-Lemma cmp_range_eq_congr x q m : cmp_range x q = Some Eq -> cmp_zone x m = cmp_zone q m.
+Lemma cmp_range_eq_congr_pre x q m : cmp_range x q = Some Eq -> cmp_zone_pre x m = cmp_zone_pre q m.
 Proof.
   destruct x, q; cbn [cmp_range]; try discriminate; intros H.
   - injection H as H. destruct b, b0; cbn in H; try discriminate; reflexivity.
   - zcmp. subst. reflexivity.
   - unfold f64_cmp in H. destruct (f64_num bits) eqn:E1, (f64_num bits0) eqn:E2; try discriminate. zcmp. subst.
-    destruct m; cbn [cmp_zone]; try reflexivity; unfold cmp_f64_int, f64_cmp; rewrite E1, E2; reflexivity.
+    destruct m; cbn [cmp_zone_pre]; try reflexivity; unfold cmp_f64_int_pre, f64_cmp; rewrite E1, E2; reflexivity.
   - injection H as H. apply lex_cmp_eq in H. subst. reflexivity.
 Qed.
